@@ -475,6 +475,13 @@ class DistanceMask(Contract):
                 east, north = np.linspace(-10, 10, rng.randint(2, 5)), np.linspace(-8, 12, rng.randint(2, 4))
                 grid = xr.Dataset({"scalars": (("northing", "easting"), nrng.uniform(1, 2, (north.size, east.size)))}, coords={"easting": east, "northing": north})
                 yield (data, maxdist), dict(grid=grid, projection=proj)
+        # "no farther than maxdist" is INCLUSIVE: integer lattices, where many nearest distances equal maxdist exactly
+        # (axis-aligned and 3-4-5 offsets), and maxdist = 0 with a query point on a data point
+        dl = (np.array([0.0, 10.0, 3.0]), np.array([0.0, 0.0, 9.0]))
+        qe, qn = np.meshgrid(np.arange(-6.0, 17.0), np.arange(-6.0, 15.0))
+        for maxdist in (5.0, 2.0, 0.0):
+            yield (dl, maxdist), dict(coordinates=(qe.ravel(), qn.ravel()))
+            yield (dl, maxdist), dict(coordinates=(qe, qn))
 
     def ensures(self, a, r):
         de, dn = flat(a.data_coordinates[0]), flat(a.data_coordinates[1])
